@@ -31,6 +31,7 @@ fn accepted_by(text: &str, fam: Family) -> Vec<String> {
             note("FlatEx::parse", catch(|| FX::parse(text).is_ok()));
             note("FlatEx::parse_wo_compile", catch(|| FX::parse_wo_compile(text).is_ok()));
             note("DeepEx::parse", catch(|| DX::parse(text).is_ok()));
+            note("Deserialize for FlatEx", catch(|| serde_json::from_str::<FX>(&serde_json::to_string(text).unwrap()).is_ok()));
         }
         Family::Float => {
             note("FlatEx::<f64>::parse", catch(|| FlatEx::<f64>::parse(text).is_ok()));
@@ -39,12 +40,15 @@ fn accepted_by(text: &str, fam: Family) -> Vec<String> {
             note("exmex::parse::<f32>", catch(|| exmex::parse::<f32>(text).is_ok()));
             note("eval_str::<f64>", catch(|| exmex::eval_str::<f64>(text).is_ok()));
             note("eval_str::<f32>", catch(|| exmex::eval_str::<f32>(text).is_ok()));
+            note("Deserialize for FlatEx::<f64>", catch(|| serde_json::from_str::<FlatEx<f64>>(&serde_json::to_string(text).unwrap()).is_ok()));
+            note("Deserialize for FlatEx::<f32>", catch(|| serde_json::from_str::<FlatEx<f32>>(&serde_json::to_string(text).unwrap()).is_ok()));
         }
         Family::Val => {
             note("parse_val::<i32,f64>", catch(|| exmex::parse_val::<i32, f64>(text).is_ok()));
             note("parse_val::<i64,f32>", catch(|| exmex::parse_val::<i64, f32>(text).is_ok()));
             note("FlatExVal::parse_wo_compile", catch(|| FlatEx::<Val<i32, f64>, ValOpsFactory<i32, f64>, ValMatcher>::parse_wo_compile(text).is_ok()));
             note("DeepEx::<Val>::parse", catch(|| DeepEx::<Val<i32, f64>, ValOpsFactory<i32, f64>, ValMatcher>::parse(text).is_ok()));
+            note("Deserialize for FlatExVal", catch(|| serde_json::from_str::<exmex::FlatExVal<i32, f64>>(&serde_json::to_string(text).unwrap()).is_ok()));
         }
     }
     acc
@@ -285,7 +289,7 @@ pub fn run(ctx: &Ctx) -> i32 {
         }
     });
     let report = Report::new(
-        "well-formed texts rendered from random trees (1..24 operands; random tables over the term algebra, the shipped float table, the shipped value table; optional call notation, redundant parentheses, juxtaposed unary operators, braces) x EVERY single-point damage: delete each parenthesis; insert '(' / ')' / one illegal character at every character position outside braces; append each binary operator of the table (with and without trailing space); an extra operand (number, variable, braced variable, parenthesised operand) directly left and right of every primary operand token, for the shipped tables also glued to it without a separator (`1e5`, `2.5E1`, `7x`); plus the fixed family (empty, blank, operator-only, operand/operator count mismatch). Oracle: every parser entry point returns Err (FlatEx::parse, parse_wo_compile, DeepEx::parse, exmex::parse, eval_str f32/f64, parse_val i32/f64 and i64/f32). distinct_nontrivial = distinct (table family, tree shape) classes of the damaged originals; evaluations = damaged variants judged.",
+        "well-formed texts rendered from random trees (1..24 operands; random tables over the term algebra, the shipped float table, the shipped value table; optional call notation, redundant parentheses, juxtaposed unary operators, braces) x EVERY single-point damage: delete each parenthesis; insert '(' / ')' / one illegal character at every character position outside braces; append each binary operator of the table (with and without trailing space); an extra operand (number, variable, braced variable, parenthesised operand) directly left and right of every primary operand token, for the shipped tables also glued to it without a separator (`1e5`, `2.5E1`, `7x`); plus the fixed family (empty, blank, operator-only, operand/operator count mismatch). Oracle: every parser entry point returns Err (FlatEx::parse, parse_wo_compile, DeepEx::parse, exmex::parse, eval_str f32/f64, parse_val i32/f64 and i64/f32, and deserialisation of a flat expression from the text). distinct_nontrivial = distinct (table family, tree shape) classes of the damaged originals; evaluations = damaged variants judged.",
     )
     .assume("illegal characters are taken from a set disjoint from all operator names, identifier characters and literal syntaxes in use: $ ? @ \\ ~ ' \" ` § (tab/newline deliberately not included)")
     .assume("an extra operand is inserted only directly beside a primary operand token, never between a binary operator and a following sign")
